@@ -33,6 +33,12 @@ CONSTANTS N,            \* number of inputs
           Ws,           \* worker counts explored; 0 = serial execution
           WriterTyped,  \* set of BOOLEAN: TRUE = the writer declares an input type (write_seqs),
                         \*   FALSE = it accepts any serialisable value (write_json, write_db)
+          Reversed,     \* set of BOOLEAN: TRUE = the inputs are handed over in reversed order
+          FnStep,       \* the step (0 = none) that is a FUNCTION STYLE app constructed with mutable
+                        \*   arguments (a list, a dict) which its body changes in place while it works
+          Isolated,     \* TRUE = every call of that step gets the arguments as constructed (what
+                        \*   define_app promises: a deep copy per call); FALSE = one copy shared by
+                        \*   all calls of the instance - the design-level counterexample, see ArgPristine
           Named         \* set of BOOLEAN: value classes explored, per input: TRUE = the values that
                         \*   flow between the steps of that record name their source (a cogent3 object
                         \*   with info.source, a dict with info.source or source, a path string),
@@ -40,8 +46,9 @@ CONSTANTS N,            \* number of inputs
                         \*   a dict without info, bytes): a NotCompleted made from such a value
                         \*   cannot name the source, everything else must hold all the same
 
-VARIABLES plan, named, w, wtyped, submitted, pending, running, finished, result, order, cons, written
-vars == <<plan, named, w, wtyped, submitted, pending, running, finished, result, order, cons, written>>
+VARIABLES plan, named, rev, w, wtyped, submitted, pending, running, finished, result, order, cons, written,
+          arg, argseen
+vars == <<plan, named, rev, w, wtyped, submitted, pending, running, finished, result, order, cons, written, arg, argseen>>
 
 Inputs   == 1..N
 Steps    == 1..S
@@ -97,7 +104,25 @@ Rec(v, typed) ==
 Expected(p, typed, i) == Rec(Run(p, i), typed)
 
 -----------------------------------------------------------------------------
+(* The function style step's mutable constructor arguments, abstractly: a list  *)
+(* of tickets (head, number left) and a call counter in a dict.  Each call       *)
+(* takes the first ticket and counts itself - in ITS copy.  `arg` is the copy    *)
+(* held by the app instance in the master (which runs every record of a serial   *)
+(* run); a parallel task unpickles an instance of its own.  argseen[i] = what    *)
+(* the call for record i found (NoArg = the step was not invoked for i).         *)
+NoArg == [head |-> 0, left |-> 0, calls |-> 0]
+Arg0  == [head |-> 1, left |-> 2, calls |-> 0]
+Mutate(a) == [head |-> a.head + 1, left |-> IF a.left > 0 THEN a.left - 1 ELSE 0, calls |-> a.calls + 1]
+Invoked(i) == /\ FnStep # 0
+              /\ LET v == UpTo(plan, i, FnStep - 1) IN v.k = "val" /\ v.wrong = 0
+(* the record shows what the call found iff it went on to complete with the step's output *)
+Shows(i) == LET v == Run(plan, i) IN
+            v.k = "val" /\ v.wrong = 0 /\ \E j \in DOMAIN v.trail : v.trail[j] = FnStep
+
 Init == /\ plan \in Plans
+        /\ rev \in Reversed
+        /\ arg = Arg0
+        /\ argseen = [i \in Inputs |-> NoArg]
         /\ named \in [Inputs -> Named]
         /\ w \in Ws
         /\ wtyped \in WriterTyped
@@ -117,21 +142,22 @@ LogFinal(act) ==
     IF Quiescent(submitted', pending', running', finished') /\ cons' = order'
     THEN Emit([act |-> act, n |-> N, plan |-> plan, named |-> named, w |-> w, wtyped |-> wtyped,
                order |-> order', cons |-> cons', written |-> written',
-               vals |-> [i \in Inputs |-> Run(plan, i)], ret |-> "ok"])
+               vals |-> [i \in Inputs |-> Run(plan, i)], rev |-> rev,
+               argseen |-> [i \in Inputs |-> IF Shows(i) THEN argseen'[i] ELSE NoArg], ret |-> "ok"])
     ELSE TRUE
 
 SubmitT ==
     /\ ~submitted
     /\ submitted' = TRUE
-    /\ pending' = [i \in Inputs |-> i]
-    /\ UNCHANGED <<plan, named, w, wtyped, running, finished, result, order, cons, written>>
+    /\ pending' = [i \in Inputs |-> IF rev THEN N + 1 - i ELSE i]
+    /\ UNCHANGED <<plan, named, rev, w, wtyped, running, finished, result, order, cons, written, arg, argseen>>
 
 StartT(t) ==
     /\ w > 0 /\ pending # <<>> /\ t = Head(pending)
     /\ Cardinality(running) < w
     /\ pending' = Tail(pending)
     /\ running' = running \cup {t}
-    /\ UNCHANGED <<plan, named, w, wtyped, submitted, finished, result, order, cons, written>>
+    /\ UNCHANGED <<plan, named, rev, w, wtyped, submitted, finished, result, order, cons, written, arg, argseen>>
 
 (* the worker returns the proxy: source kept, object replaced by the result *)
 CompleteT(t) ==
@@ -140,7 +166,8 @@ CompleteT(t) ==
     /\ finished' = finished \cup {t}
     /\ result' = [result EXCEPT ![t] = [src |-> t, obj |-> Run(plan, t)]]
     /\ order' = Append(order, t)
-    /\ UNCHANGED <<plan, named, w, wtyped, submitted, pending, cons, written>>
+    /\ argseen' = [argseen EXCEPT ![t] = IF Invoked(t) THEN Arg0 ELSE NoArg]   \* the task's own instance
+    /\ UNCHANGED <<plan, named, rev, w, wtyped, submitted, pending, cons, written, arg>>
 
 (* the master writes result t under the identifier of the proxy's source *)
 ConsumeT(t) ==
@@ -148,7 +175,7 @@ ConsumeT(t) ==
     /\ finished' = finished \ {t}
     /\ written' = [written EXCEPT ![result[t].src] = Rec(result[t].obj, wtyped)]
     /\ cons' = Append(cons, result[t].src)
-    /\ UNCHANGED <<plan, named, w, wtyped, submitted, pending, running, result, order>>
+    /\ UNCHANGED <<plan, named, rev, w, wtyped, submitted, pending, running, result, order, arg, argseen>>
 
 SerialT(t) ==
     /\ w = 0 /\ pending # <<>> /\ t = Head(pending)
@@ -157,7 +184,9 @@ SerialT(t) ==
     /\ written' = [written EXCEPT ![t] = Rec(Run(plan, t), wtyped)]
     /\ order' = Append(order, t)
     /\ cons' = Append(cons, t)
-    /\ UNCHANGED <<plan, named, w, wtyped, submitted, running, finished>>
+    /\ argseen' = [argseen EXCEPT ![t] = IF Invoked(t) THEN arg ELSE NoArg]     \* the master's instance
+    /\ arg' = IF Invoked(t) /\ ~Isolated THEN Mutate(arg) ELSE arg
+    /\ UNCHANGED <<plan, named, rev, w, wtyped, submitted, running, finished>>
 
 Submit      == SubmitT
 Start(t)    == StartT(t)
@@ -175,7 +204,7 @@ FairSpec == Spec /\ WF_vars(Next)
 (* Design-level properties checked by TLC on the model itself.                *)
 
 TypeOK == /\ ~submitted => plan \in [Inputs -> Profiles]      \* the plan never changes
-          /\ named \in [Inputs -> BOOLEAN]
+          /\ named \in [Inputs -> BOOLEAN] /\ rev \in BOOLEAN
           /\ w \in Ws /\ wtyped \in BOOLEAN /\ submitted \in BOOLEAN
           /\ running \subseteq Inputs /\ finished \subseteq Inputs
           /\ Cardinality(running) <= w
@@ -221,8 +250,17 @@ PassThrough ==
 WriteOnce == [][\A i \in Inputs : written[i] # None => written'[i] = written[i]]_vars
 
 (* dispatch is FIFO: tasks complete only if every earlier input has been started *)
+Pos(i) == IF rev THEN N + 1 - i ELSE i
 Fifo == \A i \in Inputs : (i \in running \/ i \in finished \/ Count(cons, i) = 1) =>
-            \A j \in 1..(i - 1) : Count(pending, j) = 0
+            \A j \in Inputs : Pos(j) < Pos(i) => Count(pending, j) = 0
+
+(* No state leaks from one record to another through the app instance: whatever  *)
+(* a call does to the mutable arguments its step was constructed with, the next   *)
+(* call finds them as constructed.  With this, and only with this, a record's     *)
+(* outcome is a function of the record alone (Accounted) in serial order, in      *)
+(* reversed order and in parallel alike.  TLC refutes it for Isolated = FALSE     *)
+(* (MC_ComposedApp_leak.cfg).                                                     *)
+ArgPristine == arg = Arg0 /\ \A i \in Inputs : argseen[i] \in {NoArg, Arg0}
 
 Terminates == <>AtQuiescence
 =============================================================================
